@@ -11,7 +11,9 @@ TITLE = "Declarators decode to the C++ type they denote"
 THEOREM_FILE = "Props/C02.v"
 MODELLED = ("Parse/Declarator.v is a hand-written mirror of _parse_cv_ptr_or_fn (pointer/cv loop, grouping-parenthesis detection, look-behind for "
             "array / parameter list, token re-injection, reference suffix), _parse_array_type, _parse_parameters/_parse_parameter and the variable "
-            "head, over base types `[const] [volatile] NAME|void`; token push-back is list append. NOT modelled (covered by the context search "
+            "head, over base types `[const] [volatile] NAME|void`; token push-back is list append. The five mirrored functions are pinned by an AST digest "
+            "(translate/gen_declpin.py fails closed on any edit) and the token sets they test for are regenerated and compared with the model's "
+            "(declarator_code_is_the_modelled_one). NOT modelled (covered by the context search "
             "only): qualified / templated / fundamental-group / decltype base names, the nonptr_fn path of template arguments and the "
             "type-or-value trial parse, parameter packs, defaults, trailing return types, calling conventions, member pointers, the dispatch in "
             "_parse_decl that chooses between variable, function, typedef, field")
